@@ -24,6 +24,7 @@ func plan(tier string, seed int64) []run.Batch {
 func child(b run.Batch, r *ev.Result) {
 	if b.Kind == "prodlife" {
 		prodwt.RunLife(r, b, b.Seed, "C03", b.N)
+		prodwt.RunWeekRot(r, b, b.Seed+700, "C03", 2) // lib/prodwt/weekrot.go (only on some days of the week)
 		return
 	}
 	childBase(b, r)
